@@ -113,6 +113,9 @@ def run(rep, tier, driver):
                     continue
                 combos.append(("%d,%d-Anhydro-%s%de" % (x, y, c, n), c, [("epimer", (n,)), ("anhydro", (x, y))]))
                 combos.append(("%d,%d-Anhydro-%s%dd" % (x, y, c, n), c, [("deoxy", (n,)), ("anhydro", (x, y))]))
+            # the amine 'N' (position-less: C2 of an aldose) on a bridged residue – the bridge may go through C1
+            if 2 not in (x, y):
+                combos.append(("%d,%d-Anhydro-%sN" % (x, y, c), c, [("amino", (2,)), ("anhydro", (x, y))]))
     names = sorted(set(jobs) | set(parents) | {c[0] for c in combos})
     res = dict(zip(names, pmap(_smi, names, chunk=4)))
     rep.rule = ("every library sugar (pyranose and furanose entries) x {-ol, -onic, -aric, A, n d (suffix and prefix form) for every free position, N, n e for "
